@@ -32,6 +32,22 @@
 (*           PartitionOfUnity                                                  *)
 (* All float observations are Fx limb vectors (Fx.tla); tolerances are the     *)
 (* named constants below.                                                      *)
+(*                                                                             *)
+(* How the clauses add up to the property.  On the reference cell the value    *)
+(* fields are polynomials of the tabulated degree, so ReferenceDerivative      *)
+(* (stencil exact for that degree, MC_C09 WeightsExact) decides "dphi is the   *)
+(* derivative of phi" at the sampled points.  MappingRule ties gbasis to       *)
+(* lbasis by the family's transformation with the Jacobians that C10 ties to   *)
+(* the map -- on affine, orientation-reversing, multilinear and second-order   *)
+(* curved cells, for shared and per-cell points; with the Piola identities     *)
+(* (MC_C09 PiolaIdentities) this is "true derivative after mapping".           *)
+(* MappedDerivative / GlobalDerivative decide the same statement DIRECTLY on   *)
+(* affine cells (there the mapped functions are polynomials in the global      *)
+(* coordinates) without using the transformation table at all.                 *)
+(* Not decided here: direct differentiation on non-affine cells (rational      *)
+(* functions: MappingRule only); duality of BDM1 / RT2 / N2 / N3 / HHJ (the    *)
+(* property names lowest-order H(div) / H(curl) only); the SIGN conventions of *)
+(* vector-valued functions (C03).                                              *)
 EXTENDS Numeric
 
 \* ===========================================================================
@@ -89,10 +105,10 @@ StencilSafe(st, v, H, m) ==
 
 \* --- tolerances (named; bits of 2^-k, multiplied by the integer magnitude of the compared numbers) ----------
 TolDerivBits == 40      \* stencil vs delivered derivative: 2^-40 * StencilMag
-TolGlobDerivBits == 32  \* the same for ElementGlobal (coefficients from an inverted Vandermonde matrix)
+TolGlobDerivBits == 30  \* the same for ElementGlobal (coefficients from an inverted Vandermonde matrix)
 TolMapBits   == 44      \* transformation rule: 2^-44 * product of the magnitudes of the factors
 TolDualBits  == 44      \* duality of reference-mapped elements, partition of unity
-TolGlobBits  == 30      \* duality of ElementGlobal (inverse Vandermonde matrix)
+TolGlobBits  == 26      \* duality of ElementGlobal (inverse Vandermonde matrix)
 TolOf(bits, K) == TolScaled(FxTol(bits), Max2(K, 1))
 FxNearK(a, b, bits, K) == FxNear(a, b, TolOf(bits, K))
 
